@@ -22,7 +22,7 @@ RULE_TEXT = ('runs = deterministic sweep over every (phase step x position x fau
              'Non-trivial = a sandbox was created (execution got past validation) or a validation fault fired; '
              'distinct = (keep, status, shape, fired primary (phase, step, position, kind), fired cleanup fault, '
              'set of disturbance kinds executed).')
-REACH_PROBES = ['keep', 'no_keep', 'sandbox_created', 'no_sandbox', 'ended_by_fault_with_sandbox', 'ended_pass',
+REACH_PROBES = ['case_elsewhere_than_start_directory', 'read_through_preprocessor', 'keep', 'no_keep', 'sandbox_created', 'no_sandbox', 'ended_by_fault_with_sandbox', 'ended_pass',
                 'cd_executed', 'env_executed', 'tmp_file_by_case', 'child_wrote_file', 'chmod_readonly',
                 'child_left_symlink', 'child_left_odd_entries', 'child_removed_cwd', 'cwd_deleted_when_execution_ends', 'result_observed_after_act', 'result_observed_before_act', 'double_fault', 'keep_after_failure',
                 'cwd_in_tmp_at_end']
@@ -202,6 +202,10 @@ def make_plan(i, master, tier):
     plan['engine'] = 'c04'
     plan['keep'] = keep
     plan['observe_sbx'] = True
+    # how Exactly is launched is no business of the sandbox: the case may stand elsewhere than the directory Exactly is
+    # started in, and may be read through a preprocessor (which is run in the directory of the case)
+    lg = kernel.stream(seed, 'launch')
+    plan['launch'] = {'elsewhere': lg.random() < 0.4, 'pp': lg.random() < 0.35}
     return plan
 
 
@@ -210,12 +214,21 @@ def make_plan(i, master, tier):
 def execute(plan, scratch):
     w = world_mod.World(os.path.join(scratch, 'w'))
     text = casegen.render_case(plan['case'], plan['status'])
-    w.write('home/t.case', text)
+    launch = plan.get('launch') or {}
+    case_rel = 'cases/one/t.case' if launch.get('elsewhere') else 't.case'
+    w.write('home/' + case_rel, text)
+    start = w.home
+    if launch.get('elsewhere'):
+        start = os.path.join(w.home, 'start')
+        os.makedirs(start)
+        case_rel = '../' + case_rel
+    if launch.get('pp'):
+        plan = dict(plan, procs=dict(plan['procs'], pp={'exit': 0, 'stdout': text}))
     sim = kernel.Sim(plan, w)
     home_before = w.snapshot(('home',))
     with patches.installed(sim):
-        argv = (['--keep'] if plan['keep'] else []) + ['t.case']
-        res = host.run_cli(sim, argv)
+        argv = (['--keep'] if plan['keep'] else []) + (['--preprocessor', 'pp'] if launch.get('pp') else []) + [case_rel]
+        res = host.run_cli(sim, argv, cwd=start)
         leftover = w.tmp_entries()
         final = None
         if sim.sandboxes and os.path.isdir(sim.sandboxes[0]):
@@ -236,7 +249,8 @@ def execute(plan, scratch):
         if t['step'] in ('main', 'prepare', 'execute'):
             events.append({'seq': t['seq'], 'kind': t['step'], 'id': t['id'], 'cwd': rel(t['cwd']),
                            'obs': t.get('sbx_obs'), 'view': t['extra'] if isinstance(t['extra'], dict) else None})
-    for s in sim.spawns:
+    own = [s for s in sim.spawns if s['tag'] != 'pp']
+    for s in own:
         events.append({'seq': s['seq'], 'kind': 'spawn', 'id': s['tag'], 'cwd': rel(s['cwd']),
                        'obs': s['obs'].get('sbx'), 'env': w.env_diff(s['env']), 'exit': s['exit'],
                        'error': s.get('spawn_error')})
@@ -246,7 +260,7 @@ def execute(plan, scratch):
         'trace': [{'id': t['id'], 'step': t['step'], 'seq': t['seq'], 'prev': None, 'sbx': t['n_sandboxes']}
                   for t in sim.trace],
         'spawns': [{'tag': s['tag'], 'seq': s['seq'], 'error': s.get('spawn_error'), 'exit': s['exit']}
-                   for s in sim.spawns],
+                   for s in own],
         'fired': sim.fired, 'n_sandboxes': len(sim.sandboxes), 'leftover': leftover, 'final': final,
         'sbx_name': os.path.basename(sbx) if sbx else None, 'sbx_path': sbx,
         'home_unchanged': home_before == home_after,
@@ -339,6 +353,10 @@ def _model(plan, hist):
 def _probes(plan, hist):
     pr = hist['probes']
     pr['keep' if plan['keep'] else 'no_keep'] = 1
+    if (plan.get('launch') or {}).get('elsewhere'):
+        pr['case_elsewhere_than_start_directory'] = 1
+    if (plan.get('launch') or {}).get('pp'):
+        pr['read_through_preprocessor'] = 1
     pr['sandbox_created' if hist['n_sandboxes'] else 'no_sandbox'] = 1
     expect, st, info = _model(plan, hist)
     hist['kinds'] = sorted(st['kinds'])
@@ -469,7 +487,8 @@ def _envd(d):
 def signature(plan, hist):
     _, sig = c01.signature(plan, hist)
     nontrivial = hist['n_sandboxes'] > 0 or bool(hist['fired_all'])
-    return nontrivial, (plan['keep'],) + tuple(sig) + (tuple(hist.get('kinds', [])),)
+    la = plan.get('launch') or {}
+    return nontrivial, (plan['keep'], bool(la.get('elsewhere')), bool(la.get('pp'))) + tuple(sig) + (tuple(hist.get('kinds', [])),)
 
 
 def sample_view(plan, hist):
